@@ -11,6 +11,11 @@ package main
 //	                                            that returns 1 / 7 / all bytes per Read (or data together with EOF)
 //	                                            → <item>… [err:<class>] n=<BytesRead> c=<bytes taken from the reader>
 //
+// histories on re-used destinations (the by-value model answers for the LAST stream only):
+//	C07 dec  … <pt>><hex>                       the receiver / Decode target holds <pt> before the call
+//	C07 sdec … <hexA>><hexB>[><hexC>…]           every stream is decoded (fresh Decoder each) into the SAME destination
+//	                                            variables, one per type; the answer describes the last stream
+//
 // points: inf | x;y   coordinates: base-field components in natural order (A0,A1 / B0.A0,B0.A1,B1.A0,B1.A1), hex
 // items:  u8:ff u16: u32: u64:  fr:<hex> fp:<hex>  g1:<pt> g2:<pt>  g1s:<pt>|<pt> (empty: -)  frs:a,b (empty: -)
 //         frss:a,b/c (empty list: =)  frsss:a,b/c+d (empty: ~)  u64s:  u64ss:
@@ -211,7 +216,14 @@ func execC07(a []string) string {
 		if g == nil {
 			return "bad-op"
 		}
-		return c07Dec(c, g, a[3] == "1", parseBytes(a[4]))
+		if i := strings.IndexByte(a[4], '>'); i >= 0 {
+			prev, ok := c07ParsePt(a[4][:i], g.nc)
+			if !ok {
+				return "bad-op"
+			}
+			return c07Dec(c, g, a[3] == "1", parseBytes(a[4][i+1:]), &prev)
+		}
+		return c07Dec(c, g, a[3] == "1", parseBytes(a[4]), nil)
 	case "insub":
 		// IsInSubGroup() of an on-curve point against [r]P = O computed with the library's plain Jacobian add/double
 		if len(a) != 4 {
@@ -235,7 +247,11 @@ func execC07(a []string) string {
 		if len(a) != 6 || !c.hasStream {
 			return "bad-op"
 		}
-		return c07Sdec(c, a[2] == "1", a[3], strings.Split(a[4], ","), parseBytes(a[5]))
+		var streams [][]byte
+		for _, h := range strings.Split(a[5], ">") {
+			streams = append(streams, parseBytes(h))
+		}
+		return c07Sdec(c, a[2] == "1", a[3], strings.Split(a[4], ","), streams)
 	}
 	return "bad-op"
 }
@@ -252,11 +268,18 @@ func c07Params(c *c07Curve) string {
 	return sb.String()
 }
 
-func c07Dec(c *c07Curve, g *c07Group, sub bool, buf []byte) string {
+func c07Dec(c *c07Curve, g *c07Group, sub bool, buf []byte, prev *c07Pt) string {
+	// receiver: fresh, or holding a previous value (decode history)
+	recv := func() any {
+		if prev == nil {
+			return g.newPtr()
+		}
+		return g.mkPtr(*prev)
+	}
 	viaDecoder := func() (c07Pt, int64, error) {
 		r := bytes.NewReader(buf)
 		dec, n := c.newDecoder(r, sub)
-		v := g.newPtr()
+		v := recv()
 		err := dec(v)
 		return g.ptrVal(v), n(), err
 	}
@@ -270,13 +293,38 @@ func c07Dec(c *c07Curve, g *c07Group, sub bool, buf []byte) string {
 		}
 		return fmt.Sprintf("ok %s %x", p, n)
 	}
-	p, n, err := g.setBytes(buf)
+	var p c07Pt
+	var n int
+	var err error
+	if prev == nil {
+		p, n, err = g.setBytes(buf)
+	} else {
+		v := recv()
+		sb, ok := v.(interface{ SetBytes([]byte) (int, error) })
+		if !ok {
+			return "bad-op"
+		}
+		n, err = sb.SetBytes(buf)
+		p = g.ptrVal(v)
+	}
 	res := c07Err(err)
 	if err == nil {
 		res = fmt.Sprintf("ok %s %x", p, n)
 	}
 	if g.unmarshal != nil {
-		p2, err2 := g.unmarshal(buf)
+		var p2 c07Pt
+		var err2 error
+		if prev == nil {
+			p2, err2 = g.unmarshal(buf)
+		} else {
+			v := recv()
+			um, ok := v.(interface{ Unmarshal([]byte) error })
+			if !ok {
+				return "bad-op"
+			}
+			err2 = um.Unmarshal(buf)
+			p2 = g.ptrVal(v)
+		}
 		if (err2 == nil) != (err == nil) || (err == nil && p2.String() != p.String()) {
 			return "inconsistent:unmarshal " + res
 		}
@@ -589,27 +637,38 @@ func c07Target(c *c07Curve, ty string) (any, func() string) {
 	return nil, nil
 }
 
-func c07Sdec(c *c07Curve, sub bool, chunk string, types []string, buf []byte) string {
+func c07Sdec(c *c07Curve, sub bool, chunk string, types []string, streams [][]byte) string {
 	switch chunk {
 	case "0", "1", "7", "h", "d":
 	default:
 		return "bad-op"
 	}
-	br := &c07Src{b: buf, mode: chunk}
-	dec, n := c.newDecoder(br, sub)
-	var out []string
-	for _, ty := range types {
-		v, show := c07Target(c, ty)
-		if v == nil {
+	if len(streams) == 0 {
+		return "bad-op"
+	}
+	// one destination variable per type, shared by all the streams of a history
+	vals := make([]any, len(types))
+	shows := make([]func() string, len(types))
+	for i, ty := range types {
+		vals[i], shows[i] = c07Target(c, ty)
+		if vals[i] == nil {
 			return "bad-op"
 		}
-		if err := dec(v); err != nil {
-			out = append(out, c07Err(err))
-			break
-		}
-		out = append(out, show())
 	}
-	out = append(out, fmt.Sprintf("n=%x c=%x", n(), br.pos))
+	var out []string
+	for _, buf := range streams {
+		br := &c07Src{b: buf, mode: chunk}
+		dec, n := c.newDecoder(br, sub)
+		out = out[:0]
+		for i := range types {
+			if err := dec(vals[i]); err != nil {
+				out = append(out, c07Err(err))
+				break
+			}
+			out = append(out, shows[i]())
+		}
+		out = append(out, fmt.Sprintf("n=%x c=%x", n(), br.pos))
+	}
 	return strings.Join(out, " ")
 }
 
@@ -743,6 +802,7 @@ func (x *c07Gen) pointOps(g *c07Group) {
 	rg := x.g.rng
 	p := c.fp.modulus
 	fb := c.fp.bytes
+	_, _ = p, fb
 	nValid := x.g.budget(3, 12)
 	// 1. valid elements: encode both modes, decode what the library wrote, trailing bytes, every truncation class
 	pts := []c07Pt{{inf: true}, g.gen()}
@@ -781,65 +841,7 @@ func (x *c07Gen) pointOps(g *c07Group) {
 		}
 	}
 	// 2. every flag pattern × coordinate class
-	type xclass struct {
-		name string
-		xs   []*big.Int
-		ys   []*big.Int
-	}
-	var classes []xclass
-	sp := x.subPoint(g)
-	classes = append(classes, xclass{"sub", sp.x, sp.y})
-	cp := x.curvePoint(g)
-	classes = append(classes, xclass{"curve", cp.x, cp.y})
-	if !c07IsOne(c) {
-		// [r]·(random curve point): order divides the cofactor
-		hp := g.mul(x.curvePoint(g), c.fr.modulus)
-		if !hp.inf {
-			classes = append(classes, xclass{"cof", hp.x, hp.y})
-		}
-	}
-	if t, ok := x.twoTorsion(g); ok {
-		classes = append(classes, xclass{"two", t.x, t.y})
-	}
-	classes = append(classes, xclass{"nosqrt", x.noSqrtX(g), x.randComps(g)})
-	// off curve: valid x with a wrong y
-	oc := x.subPoint(g)
-	ocy := make([]*big.Int, len(oc.y))
-	for i := range oc.y {
-		ocy[i] = new(big.Int).Set(oc.y[i])
-	}
-	ocy[0] = new(big.Int).Mod(new(big.Int).Add(ocy[0], big.NewInt(1)), p)
-	classes = append(classes, xclass{"offcurve", oc.x, ocy})
-	classes = append(classes, xclass{"zero", zerosBig(g.nc), zerosBig(g.nc)})
-	// non canonical coordinates: = p, > p, all ones below the flag bits; in each component position
-	limit := new(big.Int).Lsh(big.NewInt(1), uint(8*fb-[]int{0, 0, 2, 3}[c.layout]))
-	for pos := 0; pos < g.nc; pos++ {
-		for vi, v := range []*big.Int{p, new(big.Int).Add(p, big.NewInt(1)), new(big.Int).Sub(limit, big.NewInt(1))} {
-			if v.Cmp(limit) >= 0 {
-				continue
-			}
-			if !x.g.thorough() && vi != pos%3 && g.nc > 1 {
-				continue // quick tier: one of the three values per component position of an extension field
-			}
-			q := x.subPoint(g)
-			xs := append([]*big.Int{}, q.x...)
-			xs[pos] = v
-			classes = append(classes, xclass{"xbig", xs, q.y})
-			ys := append([]*big.Int{}, q.y...)
-			ys[pos] = v
-			classes = append(classes, xclass{"ybig", q.x, ys})
-		}
-	}
-	// x + p when it still fits below the flag bits (aliases the same residue)
-	{
-		q := x.subPoint(g)
-		v := new(big.Int).Add(q.x[g.nc-1], p)
-		if v.Cmp(limit) < 0 {
-			xs := append([]*big.Int{}, q.x...)
-			xs[g.nc-1] = v
-			classes = append(classes, xclass{"xalias", xs, q.y})
-		}
-	}
+	classes := x.coordClasses(g, x.g.thorough())
 	// subgroup predicate on curve points of every kind, and on the points with x = 0 (fixed by the endomorphism φ)
 	for _, cl := range classes {
 		switch cl.name {
@@ -895,6 +897,157 @@ func (x *c07Gen) pointOps(g *c07Group) {
 		}
 		x.emitDec(g, b)
 	}
+}
+
+// a coordinate class: X and Y components (natural order) that go into a hand-made frame
+type c07Class struct {
+	name string
+	xs   []*big.Int
+	ys   []*big.Int
+}
+
+// exclusive upper bound of what the bytes of component pos can hold: the component written first (natural index
+// nc-1 of X) shares its most significant byte with the flag bits
+func (x *c07Gen) compBound(g *c07Group, isX bool, pos int) *big.Int {
+	bits := 8 * x.c.fp.bytes
+	if isX && pos == g.nc-1 {
+		bits -= []int{0, 0, 2, 3}[x.c.layout]
+	}
+	return new(big.Int).Lsh(big.NewInt(1), uint(bits))
+}
+
+// a valid point whose coordinate component pos, plus p, still fits in the bytes: v+p is a non-canonical spelling of
+// a valid coordinate (the only class that tells SetBytes from SetBytesCanonical)
+func (x *c07Gen) aliasPoint(g *c07Group, isX bool, pos int) (c07Pt, *big.Int, bool) {
+	p := x.c.fp.modulus
+	bound := x.compBound(g, isX, pos)
+	try := func(q c07Pt) (*big.Int, bool) {
+		if q.inf {
+			return nil, false
+		}
+		v := q.y[pos]
+		if isX {
+			v = q.x[pos]
+		}
+		w := new(big.Int).Add(v, p)
+		return w, w.Cmp(bound) < 0
+	}
+	for i := 0; i < 40; i++ {
+		q := x.subPoint(g)
+		if w, ok := try(q); ok {
+			return q, w, true
+		}
+	}
+	// p close to the byte capacity (secp256k1): small x
+	for i := int64(0); i < 200 && isX; i++ {
+		xs := zerosBig(g.nc)
+		xs[pos] = big.NewInt(i)
+		if q, ok := g.lift(xs); ok {
+			if w, ok := try(q); ok {
+				return q, w, true
+			}
+		}
+	}
+	return c07Pt{}, nil, false
+}
+
+// the coordinate classes of the decoders: points of every kind, x without point, off curve, zero, and every
+// non-canonical spelling (= p, p+1, all ones, v+p) in each component position of X and of Y.
+// all = the three "big" values in every component (otherwise one of them per component of an extension field)
+func (x *c07Gen) coordClasses(g *c07Group, all bool) []c07Class {
+	c := x.c
+	p := c.fp.modulus
+	var classes []c07Class
+	sp := x.subPoint(g)
+	classes = append(classes, c07Class{"sub", sp.x, sp.y})
+	cp := x.curvePoint(g)
+	classes = append(classes, c07Class{"curve", cp.x, cp.y})
+	if !c07IsOne(c) {
+		// [r]·(random curve point): order divides the cofactor
+		hp := g.mul(x.curvePoint(g), c.fr.modulus)
+		if !hp.inf {
+			classes = append(classes, c07Class{"cof", hp.x, hp.y})
+		}
+	}
+	if t, ok := x.twoTorsion(g); ok {
+		classes = append(classes, c07Class{"two", t.x, t.y})
+	}
+	classes = append(classes, c07Class{"nosqrt", x.noSqrtX(g), x.randComps(g)})
+	// off curve: valid x with a wrong y
+	oc := x.subPoint(g)
+	ocy := make([]*big.Int, len(oc.y))
+	for i := range oc.y {
+		ocy[i] = new(big.Int).Set(oc.y[i])
+	}
+	ocy[0] = new(big.Int).Mod(new(big.Int).Add(ocy[0], big.NewInt(1)), p)
+	classes = append(classes, c07Class{"offcurve", oc.x, ocy})
+	classes = append(classes, c07Class{"zero", zerosBig(g.nc), zerosBig(g.nc)})
+	// non canonical coordinates: = p, > p, all ones below the flag bits; in each component position
+	for pos := 0; pos < g.nc; pos++ {
+		for _, isX := range []bool{true, false} {
+			bound := x.compBound(g, isX, pos)
+			for vi, v := range []*big.Int{p, new(big.Int).Add(p, big.NewInt(1)), new(big.Int).Sub(bound, big.NewInt(1))} {
+				if v.Cmp(bound) >= 0 {
+					continue
+				}
+				if !all && vi != pos%3 && g.nc > 1 {
+					continue // quick tier: one of the three values per component position of an extension field
+				}
+				q := x.subPoint(g)
+				if isX {
+					xs := append([]*big.Int{}, q.x...)
+					xs[pos] = v
+					classes = append(classes, c07Class{"xbig", xs, q.y})
+				} else {
+					ys := append([]*big.Int{}, q.y...)
+					ys[pos] = v
+					classes = append(classes, c07Class{"ybig", q.x, ys})
+				}
+			}
+			// v + p when it still fits (aliases the residue of a valid coordinate)
+			if q, w, ok := x.aliasPoint(g, isX, pos); ok {
+				if isX {
+					xs := append([]*big.Int{}, q.x...)
+					xs[pos] = w
+					classes = append(classes, c07Class{"xalias", xs, q.y})
+				} else {
+					ys := append([]*big.Int{}, q.y...)
+					ys[pos] = w
+					classes = append(classes, c07Class{"yalias", q.x, ys})
+				}
+			}
+		}
+	}
+	return classes
+}
+
+func c07NonCanonClass(name string) bool {
+	switch name {
+	case "xbig", "ybig", "xalias", "yalias":
+		return true
+	}
+	return false
+}
+
+// meaning of the flag bits of a first byte: "unc", "uncinf", "comp", "cinf", "bad"
+func (x *c07Gen) flagKind(fl byte) string {
+	switch x.c.layout {
+	case 2:
+		return map[byte]string{0x00: "unc", 0x40: "cinf", 0x80: "comp", 0xc0: "comp"}[fl&0xc0]
+	case 3:
+		switch fl & 0xe0 {
+		case 0x00:
+			return "unc"
+		case 0x40:
+			return "uncinf"
+		case 0x80, 0xa0:
+			return "comp"
+		case 0xc0:
+			return "cinf"
+		}
+		return "bad"
+	}
+	return "unc"
 }
 
 func c07IsOne(c *c07Curve) bool {
@@ -1122,6 +1275,13 @@ func (x *c07Gen) streamOps(first bool) {
 	// 3. a corrupted item at every position of slices and nested slices
 	x.corruptVectors()
 	x.corruptPointSlices()
+	for _, g := range []*c07Group{c.g1, c.g2} {
+		if g != nil {
+			x.slicePointClasses(g)
+		}
+	}
+	// decode histories on re-used destinations
+	x.historyOps()
 	// 4. adversarial length prefixes (capped: the decoder allocates before reading, finding iv)
 	for _, ty := range all {
 		if !strings.HasSuffix(ty, "s") && !strings.HasSuffix(ty, "v") && !strings.HasSuffix(ty, "sp") {
@@ -1291,6 +1451,431 @@ func (x *c07Gen) corruptPointSlices() {
 	}
 }
 
+// ---- every single-point failure class at every position of a point slice
+
+// uint32 length n, the item `bad` at position pos, valid items elsewhere (library encodings, compressed or raw at
+// random). light: one neighbour is a random subgroup point, the others are the point at infinity (keeps the model's
+// batch validation cheap when `bad` survives the sequential phase)
+func (x *c07Gen) sliceWith(g *c07Group, n, pos int, bad []byte, light bool) []byte {
+	rg := x.g.rng
+	b := []byte{0, 0, 0, byte(n)}
+	heavy := rg.intn(n - 1)
+	if light && g.nc > 2 && rg.intn(3) != 0 {
+		heavy = -1 // Fp⁴ coordinates: a subgroup point costs the model ~60 ms; a valid neighbour one time in three
+	}
+	k := 0
+	for i := 0; i < n; i++ {
+		if i == pos {
+			b = append(b, bad...)
+			continue
+		}
+		q := c07Pt{inf: true}
+		if !light || k == heavy {
+			q = x.subPoint(g)
+		}
+		k++
+		if rg.coin() {
+			b = append(b, g.enc(q)...)
+		} else {
+			b = append(b, g.encRaw(q)...)
+		}
+	}
+	return b
+}
+
+// bw6-633 G1 / bw6-761 G2: IsInSubGroup accepts the order-3 points (0, ±sqrt b) (known finding, reported through
+// the dec / insub ops)
+func c07Order3Group(c *c07Curve, g *c07Group) bool {
+	return (c.name == "bw6-633" && g.name == "G1") || (c.name == "bw6-761" && g.name == "G2")
+}
+
+func (x *c07Gen) slicePointClasses(g *c07Group) {
+	c := x.c
+	rg := x.g.rng
+	ty := strings.ToLower(g.name) + "s"
+	n := 3
+	quick := !x.g.thorough()
+	cnt := 0
+	emit := func(bad []byte, light, nosub bool) {
+		for pos := 0; pos < n; pos++ {
+			b := x.sliceWith(g, n, pos, bad, light)
+			x.emitSdec(true, c07Chunks[rg.intn(len(c07Chunks))], []string{ty}, b)
+			if nosub && pos == cnt%n {
+				x.emitSdec(false, "0", []string{ty}, b)
+			}
+		}
+		cnt++
+	}
+	// 1. every coordinate class × flag pattern, frame size chosen by the flag (both sizes for the invalid flags)
+	for _, cl := range x.coordClasses(g, true) {
+		nonCanon := c07NonCanonClass(cl.name)
+		onY := cl.name == "ybig" || cl.name == "yalias"
+		fls := x.flags()
+		if quick && nonCanon && len(fls) > 1 {
+			// quick tier: the uncompressed flag, one compressed flag, one flag at random
+			fls = []byte{0, x.compFlag(rg.coin()), fls[rg.intn(len(fls))]}
+		}
+		light := quick && !nonCanon
+		nosub := cl.name != "two"
+		for _, fl := range fls {
+			switch x.flagKind(fl) {
+			case "comp", "cinf":
+				if onY || (cl.name == "zero" && c07Order3Group(c, g)) {
+					continue // Y is not part of the frame
+				}
+				emit(x.frame(g, fl, cl.xs, nil), light, nosub)
+			case "unc", "uncinf":
+				emit(x.frame(g, fl, cl.xs, cl.ys), light, nosub)
+			default:
+				if !onY {
+					emit(x.frame(g, fl, cl.xs, nil), light, nosub)
+				}
+				emit(x.frame(g, fl, cl.xs, cl.ys), light, nosub)
+			}
+		}
+	}
+	// 2. infinity / zero frames with a non-zero payload byte in each byte-position class
+	for _, fl := range x.flags() {
+		var size int
+		var poss []int
+		switch x.flagKind(fl) {
+		case "cinf":
+			size, poss = g.sizeC, []int{0, 1, g.sizeC - 1}
+		case "unc", "uncinf":
+			size, poss = 2*g.sizeC, []int{0, 1, g.sizeC - 1, g.sizeC, 2*g.sizeC - 1}
+		default:
+			continue
+		}
+		for _, bp := range poss {
+			b := make([]byte, size)
+			b[0] = fl
+			if bp == 0 {
+				b[0] |= 1
+			} else {
+				b[bp] = byte(1 + rg.intn(255))
+			}
+			emit(b, quick, true)
+		}
+	}
+}
+
+// ---- decode histories: stream A, then stream B (…) decoded into the SAME destination variables
+
+func (x *c07Gen) emitHist(sub bool, chunk string, types []string, streams ...[]byte) {
+	hs := make([]string, len(streams))
+	for i := range streams {
+		hs[i] = hexBytes(streams[i])
+	}
+	x.g.emit("C07 sdec %s %s %s %s %s", x.c.name, boolStr(sub), chunk, strings.Join(types, ","), strings.Join(hs, ">"))
+}
+
+func (x *c07Gen) chunk() string { return c07Chunks[x.g.rng.intn(len(c07Chunks))] }
+
+func (x *c07Gen) nonInf(g *c07Group, n int) []c07Pt {
+	r := make([]c07Pt, n)
+	for i := range r {
+		r[i] = x.subPoint(g)
+	}
+	return r
+}
+
+// a vector related to a: same length most of the time, entries zeroed / kept / redrawn
+func (x *c07Gen) rel1(a []*big.Int, q *big.Int) []*big.Int {
+	rg := x.g.rng
+	if rg.intn(4) == 0 {
+		return x.vec1(q, true, 4)
+	}
+	r := make([]*big.Int, len(a))
+	for i := range a {
+		switch rg.intn(3) {
+		case 0:
+			r[i] = new(big.Int)
+		case 1:
+			r[i] = a[i]
+		default:
+			r[i] = x.smallElem(q)
+		}
+	}
+	return r
+}
+func (x *c07Gen) rel2(a [][]*big.Int, q *big.Int) [][]*big.Int {
+	if x.g.rng.intn(4) == 0 {
+		return x.vec2(q, true, 3)
+	}
+	r := make([][]*big.Int, len(a))
+	for i := range a {
+		r[i] = x.rel1(a[i], q)
+	}
+	return r
+}
+func (x *c07Gen) rel3(a [][][]*big.Int, q *big.Int) [][][]*big.Int {
+	if x.g.rng.intn(4) == 0 {
+		return x.vec3(q, true, 2)
+	}
+	r := make([][][]*big.Int, len(a))
+	for i := range a {
+		r[i] = x.rel2(a[i], q)
+	}
+	return r
+}
+func (x *c07Gen) relPts(a []c07Pt, g *c07Group) []c07Pt {
+	rg := x.g.rng
+	if rg.intn(4) == 0 {
+		return x.pts(g, rg.intn(4))
+	}
+	r := make([]c07Pt, len(a))
+	for i := range a {
+		switch rg.intn(3) {
+		case 0:
+			r[i] = c07Pt{inf: true}
+		case 1:
+			r[i] = a[i]
+		default:
+			r[i] = x.subPoint(g)
+		}
+	}
+	return r
+}
+
+// an item of the same type as `item`, related to it (see rel1): what a second Decode into the same variable reads
+func (x *c07Gen) related(item string) string {
+	c := x.c
+	rg := x.g.rng
+	ty := c07ItemType(item)
+	s := item[len(ty)+1:]
+	two := uint64(rg.intn(2))
+	switch ty {
+	case "u8", "u16", "u32", "u64":
+		if two == 0 {
+			return ty + ":0"
+		}
+		return x.item(ty, true)
+	case "fr", "fp":
+		if two == 0 {
+			return ty + ":0"
+		}
+		return x.item(ty, true)
+	case "g1", "g2":
+		if two == 0 {
+			return ty + ":inf"
+		}
+		return x.item(ty, true)
+	case "g1s", "g2s", "g1sp", "g2sp":
+		g := c.g1
+		if strings.HasPrefix(ty, "g2") {
+			g = c.g2
+		}
+		ps, _ := c07ParsePts(s, g.nc)
+		return ty + ":" + c07ShowPts(x.relPts(ps, g))
+	case "frs", "frv", "frvp":
+		return ty + ":" + c07Show1(x.rel1(c07Parse1(s), c.fr.modulus))
+	case "fps", "fpv":
+		return ty + ":" + c07Show1(x.rel1(c07Parse1(s), c.fp.modulus))
+	case "frss":
+		return ty + ":" + c07Show2(x.rel2(c07Parse2(s), c.fr.modulus))
+	case "frsss":
+		return ty + ":" + c07Show3(x.rel3(c07Parse3(s), c.fr.modulus))
+	case "u64s":
+		v := c07Parse1(s)
+		for i := range v {
+			if rg.coin() {
+				v[i] = new(big.Int)
+			}
+		}
+		if rg.intn(4) == 0 && len(v) > 0 {
+			v = v[:len(v)-1]
+		}
+		return ty + ":" + c07Show1(v)
+	case "u64ss":
+		v := c07Parse2(s)
+		for i := range v {
+			if rg.coin() && len(v[i]) > 0 {
+				v[i] = v[i][:len(v[i])-1]
+			}
+			for j := range v[i] {
+				if rg.coin() {
+					v[i][j] = new(big.Int)
+				}
+			}
+		}
+		return ty + ":" + c07Show2(v)
+	}
+	return x.item(ty, true)
+}
+
+func (x *c07Gen) historyOps() {
+	c := x.c
+	rg := x.g.rng
+	inf := c07Pt{inf: true}
+	// 1. point slices: B holds infinity where A holds a point, at every position, both encoder modes and hand-mixed
+	// item modes; B shorter / longer / empty; A failing midway; three-step histories
+	for _, g := range []*c07Group{c.g1, c.g2} {
+		if g == nil {
+			continue
+		}
+		ty := strings.ToLower(g.name) + "s"
+		tys := []string{ty}
+		encS := func(raw bool, ps []c07Pt) []byte { return x.encode(raw, []string{ty + ":" + c07ShowPts(ps)}) }
+		mixed := func(ps []c07Pt, rawInf bool) []byte {
+			b := []byte{0, 0, 0, byte(len(ps))}
+			for _, q := range ps {
+				raw := rg.coin()
+				if q.inf {
+					raw = rawInf
+				}
+				if raw {
+					b = append(b, g.encRaw(q)...)
+				} else {
+					b = append(b, g.enc(q)...)
+				}
+			}
+			return b
+		}
+		with := func(base []c07Pt, i int, q c07Pt) []c07Pt {
+			r := append([]c07Pt{}, base...)
+			for j := range r {
+				if j != i && rg.coin() {
+					r[j] = x.subPoint(g)
+				}
+			}
+			r[i] = q
+			return r
+		}
+		n := 3
+		base := x.nonInf(g, n)
+		for i := 0; i < n; i++ {
+			for _, rawB := range []bool{false, true} {
+				x.emitHist(true, x.chunk(), tys, encS(rg.coin(), base), encS(rawB, with(base, i, inf)))
+				x.emitHist(true, x.chunk(), tys, mixed(base, false), mixed(with(base, i, inf), rawB))
+			}
+		}
+		x.emitHist(false, "0", tys, encS(false, base), encS(false, with(base, rg.intn(n), inf)))
+		x.emitHist(true, x.chunk(), tys, encS(rg.coin(), base), encS(rg.coin(), []c07Pt{inf, inf, inf}))
+		x.emitHist(true, x.chunk(), tys, encS(rg.coin(), base), encS(rg.coin(), []c07Pt{inf, base[0]}))
+		x.emitHist(true, x.chunk(), tys, encS(rg.coin(), base), encS(rg.coin(), []c07Pt{base[2], inf, base[0], inf}))
+		x.emitHist(true, x.chunk(), tys, encS(rg.coin(), base), encS(rg.coin(), nil))
+		x.emitHist(true, x.chunk(), tys, encS(rg.coin(), nil), encS(rg.coin(), []c07Pt{inf, base[1]}))
+		x.emitHist(true, x.chunk(), tys, encS(rg.coin(), []c07Pt{inf, inf, base[0]}), encS(rg.coin(), []c07Pt{base[1], base[2], inf}))
+		// three steps: the middle stream fails (bad infinity payload at item 1 / truncated inside item 1) or succeeds
+		bad := mixed(with(base, 1, inf), false)
+		{
+			// locate item 1: item 0 starts at offset 4
+			off := 4 + g.sizeC
+			if bad[4]&0xc0 == 0 || (c.layout == 3 && bad[4]&0xe0 == 0x40) {
+				off = 4 + 2*g.sizeC
+			}
+			badInf := append([]byte{}, bad...)
+			badInf[off+g.sizeC-1] = 1
+			x.emitHist(true, x.chunk(), tys, encS(false, base), badInf, encS(false, with(base, 2, inf)))
+			x.emitHist(true, x.chunk(), tys, encS(true, base), bad[:off+g.sizeC/2], mixed(with(base, 0, inf), false))
+		}
+		x.emitHist(true, x.chunk(), tys, encS(rg.coin(), base), encS(rg.coin(), with(base, 1, inf)), encS(rg.coin(), with(with(base, 1, base[0]), 0, inf)))
+		// single points through the Decoder, and a point followed by a slice
+		pt := strings.ToLower(g.name)
+		for _, raw := range []bool{false, true} {
+			x.emitHist(true, x.chunk(), []string{pt}, x.encode(rg.coin(), []string{pt + ":" + base[0].String()}), x.encode(raw, []string{pt + ":inf"}))
+			x.emitHist(true, x.chunk(), []string{pt, ty}, x.encode(rg.coin(), []string{pt + ":" + base[0].String(), ty + ":" + c07ShowPts(base[1:])}),
+				x.encode(raw, []string{pt + ":inf", ty + ":" + c07ShowPts([]c07Pt{inf, base[0]})}))
+		}
+		x.emitHist(true, x.chunk(), []string{pt}, x.encode(rg.coin(), []string{pt + ":" + base[0].String()}), x.encode(rg.coin(), []string{pt + ":" + base[1].String()}))
+	}
+	// 2. field elements, vectors and nested vectors: zeros / shorter / empty over non-trivial content
+	e := func(q *big.Int) string { return hexBig(new(big.Int).Add(x.g.rng.bigBelow(new(big.Int).Sub(q, big.NewInt(1))), big.NewInt(1))) }
+	r, p := c.fr.modulus, c.fp.modulus
+	type hist struct{ a, b string }
+	hs := []hist{
+		{"u8:a5", "u8:0"}, {"u16:a5a5", "u16:0"}, {"u32:a5a5a5a5", "u32:0"}, {"u64:a5a5a5a5a5a5a5a5", "u64:0"},
+		{"fr:" + e(r), "fr:0"}, {"fp:" + e(p), "fp:0"},
+	}
+	vecTys := []string{"frs", "fps"}
+	if c.fullTypes {
+		vecTys = append(vecTys, "frv", "frvp", "fpv")
+	}
+	for _, ty := range vecTys {
+		q := r
+		if strings.HasPrefix(ty, "fp") {
+			q = p
+		}
+		a := ty + ":" + e(q) + "," + e(q) + "," + e(q)
+		hs = append(hs, hist{a, ty + ":0," + e(q) + ",0"}, hist{a, ty + ":0,0,0"}, hist{a, ty + ":" + e(q)}, hist{a, ty + ":-"},
+			hist{ty + ":-", a}, hist{a, ty + ":0,0,0,0"})
+	}
+	if c.fullTypes {
+		a2 := "frss:" + e(r) + "," + e(r) + "/" + e(r) + "/" + e(r) + "," + e(r) + "," + e(r)
+		for _, b := range []string{"0,0/-/" + e(r), "0,0/0/0,0,0", e(r) + "/-/-", "-/-/-", e(r) + "," + e(r), "=", "0/0/0/0", "-/0," + e(r) + "/0"} {
+			hs = append(hs, hist{a2, "frss:" + b})
+		}
+		hs = append(hs, hist{"frss:=", a2})
+		a3 := "frsss:" + e(r) + "," + e(r) + "/" + e(r) + "+" + e(r) + "/" + e(r) + "," + e(r) + "+" + e(r)
+		for _, b := range []string{"0,0/0+0/0,0+0", "0/-+=+" + e(r), "=+=+=", "-/-+-/-+-", e(r) + "+" + e(r), "~", "0+0+0+0", "0," + e(r) + "+" + e(r) + "/-/0+-"} {
+			hs = append(hs, hist{a3, "frsss:" + b})
+		}
+		hs = append(hs, hist{"frsss:~", a3},
+			hist{"u64s:1,2,3", "u64s:0,0,0"}, hist{"u64s:1,2,3", "u64s:5"}, hist{"u64s:1,2,3", "u64s:-"},
+			hist{"u64ss:1,2/3", "u64ss:0/-"}, hist{"u64ss:1,2/3", "u64ss:0,0/0"}, hist{"u64ss:1,2/3", "u64ss:="}, hist{"u64ss:1,2/3", "u64ss:7"})
+	}
+	var allA, allB, allT []string
+	for _, h := range hs {
+		ty := c07ItemType(h.a)
+		x.emitHist(true, x.chunk(), []string{ty}, x.encode(rg.coin(), []string{h.a}), x.encode(rg.coin(), []string{h.b}))
+		if rg.intn(3) == 0 {
+			allA, allB, allT = append(allA, h.a), append(allB, h.b), append(allT, ty)
+		}
+	}
+	if len(allT) > 0 {
+		x.emitHist(true, x.chunk(), allT, x.encode(false, allA), x.encode(true, allB))
+	}
+	// 3. random mixes: A random, B (and C) related to A; sometimes the middle stream is cut short
+	all := x.types()
+	for rep := 0; rep < x.g.budget(4, 24); rep++ {
+		n := 1 + rg.intn(4)
+		var a, b, cc, tys []string
+		for i := 0; i < n; i++ {
+			ty := all[rg.intn(len(all))]
+			it := x.item(ty, true)
+			a, tys = append(a, it), append(tys, ty)
+			b = append(b, x.related(it))
+			cc = append(cc, x.related(it))
+		}
+		sa, sb, sc := x.encode(rg.coin(), a), x.encode(rg.coin(), b), x.encode(rg.coin(), cc)
+		switch rg.intn(3) {
+		case 0:
+			x.emitHist(true, x.chunk(), tys, sa, sb)
+		case 1:
+			x.emitHist(true, x.chunk(), tys, sa, sb, sc)
+		default:
+			x.emitHist(true, x.chunk(), tys, sa, sb[:rg.intn(len(sb)+1)], sc)
+		}
+	}
+}
+
+// single points: SetBytes / Unmarshal / Decode on a receiver that already holds a point
+func (x *c07Gen) pointHistoryOps(g *c07Group) {
+	c := x.c
+	inf := c07Pt{inf: true}
+	q := x.subPoint(g)
+	for _, prev := range []c07Pt{g.gen(), x.subPoint(g)} {
+		var bufs [][]byte
+		if g.hasComp {
+			bufs = append(bufs, g.enc(inf), g.enc(q))
+			bi := g.enc(inf)
+			bi[len(bi)-1] = 1
+			bufs = append(bufs, bi)
+		}
+		raw := g.encRaw(q)
+		ri := g.encRaw(inf)
+		ri2 := append([]byte{}, ri...)
+		ri2[len(ri2)-1] = 1
+		bufs = append(bufs, ri, raw, ri2, raw[:len(raw)-1], nil)
+		for _, b := range bufs {
+			x.g.emit("C07 dec %s %s 1 %s>%s", c.name, g.name, prev, hexBytes(b))
+			if c.hasStream {
+				x.g.emit("C07 dec %s %s 0 %s>%s", c.name, g.name, prev, hexBytes(b))
+			}
+		}
+	}
+}
+
 func (x *c07Gen) compFlag(large bool) byte {
 	if x.c.layout == 2 {
 		if large {
@@ -1316,8 +1901,10 @@ func genC07(g *gen) {
 		x := &c07Gen{g: g, c: c}
 		g.emit("C07 params %s", name)
 		x.pointOps(c.g1)
+		x.pointHistoryOps(c.g1)
 		if c.g2 != nil {
 			x.pointOps(c.g2)
+			x.pointHistoryOps(c.g2)
 		}
 		if c.hasStream {
 			x.streamOps(i == 0)
